@@ -65,9 +65,14 @@ SeedTable == <<
   Obj(<< Mem(<<60,107>>, Str(<<38,62>>)),
          Mem(ca, Obj(<<Mem(ck, SLt)>>)),
          Mem(cb, Arr(<<Str(<<8232>>), Str(<<34,92,1>>), Str(<<128512>>)>>)) >>),
-  \* 8: empty roots
+  \* 8, 9: empty roots
   Obj(<<>>),
-  Arr(<<>>)
+  Arr(<<>>),
+  \* 10: small, members in non-sorted order, a value whose size depends on escaping ("<") and
+  \*     one whose size depends on compaction ([1,2]); two copies cross a limit only together
+  Obj(<< Mem(cb, N1), Mem(ca, Obj(<<Mem(cd, SLt), Mem(cc, Arr(<<N1, N2>>))>>)) >>),
+  \* 11: array of three distinct elements under a root array (index arithmetic at depth 2)
+  Arr(<< Arr(<<N1, N2, N3>>), Obj(<<Mem(ck, N10)>>) >>)
 >>
 
 ValTable == <<
@@ -109,8 +114,20 @@ Exist(d)      == Paths(d)
 Near(d, W)    == UNION { { p \o <<t>> : t \in NearTokens(At(d, p), W) } : p \in Paths(d) }
 Deep(d, W)    == { p \o <<cq, cr>> : p \in { q \in Paths(d) : Len(q) <= 1 /\ At(d, q).t = "obj" } }
                  \cup (IF W THEN { p \o <<NatCps(7), cr>> : p \in { q \in Paths(d) : At(d, q).t = "arr" } } ELSE {})
+                 \* below a scalar: the parent location cannot be reached
+                 \cup (IF W THEN { p \o <<cq, cr>> : p \in { q \in Paths(d) : Len(q) <= 2 /\ At(d, q).t \in {"num", "str", "bool"} } } ELSE {})
+\* EnsurePathExistsOnAdd: chains of missing parents - object->object, object->array (numeric or "-"
+\* next token), array->object with padding, new array with padding, names that need ~1 / ~0
+EnsureTails(v) ==
+  CASE v.t = "obj" -> { <<cq, <<48>>>>, <<cq, <<45>>>>, <<cq, <<50>>>>, <<cq, cr, cs>>, <<cq, <<50>>, cr>>,
+                        <<<<113,47,114>>, <<109,126,110>>>>, <<cq, <<48>>, <<49>>>> }
+    [] v.t = "arr" -> LET n == Len(v.e) IN
+                      { <<NatCps(n), cr>>, <<NatCps(n+2), cr>>, <<NatCps(n+1), <<49>>>>, <<NatCps(n), <<45>>>> }
+    [] OTHER -> {}
+EnsurePtrs(d) == UNION { { p \o t : t \in EnsureTails(At(d, p)) } : p \in { q \in Paths(d) : Len(q) <= 2 } }
+
 AllPtrs(d, W) == Exist(d) \cup Near(d, W) \cup Deep(d, W)
-BadSources(d, W) == { p \in Near(d, W) : Len(p) <= 2 }
+BadSources(d, W) == { p \in Near(d, W) : Len(p) <= 2 } \cup { p \in Deep(d, W) : Len(p) <= 2 }
 
 \* an equal value with its members in another order (a test must still pass)
 Reordered(v) ==
@@ -121,7 +138,7 @@ TestValues(d, p, step) ==
 
 OpsOf(d, step) ==
   LET W    == step <= WideDepth
-      ptrs == AllPtrs(d, W)
+      ptrs == AllPtrs(d, W) \cup (IF opts.ensure /\ W THEN EnsurePtrs(d) ELSE {})
       good == Exist(d)
       bad  == BadSources(d, W)
       few  == { p \in ptrs : Len(p) = 1 }          \* destinations tried with a failing source
